@@ -33,7 +33,7 @@ func init() {
 		ID: "C12",
 		Explanation: "R3: duplicate removal keeps the last of two rules that compare Equal, which is cascade-neutral only for rules whose effect does not depend on their first position; css_ast.RAtLayer.Equal and RAtImport.Equal must therefore return the constant false on every path (layer order is first-declaration order). Decides a structural necessary condition of cascade preservation, not the cascade itself: the equality used by CSS rule merging and duplicate-rule removal (css_ast.*.Equal / EqualIgnoringWhitespace, reached from DuplicateRuleRemover, mangleRules and the linker's cross-file removal) reads every semantic field of every CSS AST node type through BOTH operands (location fields excepted; derived fields listed as reviewed exceptions), pointer-typed fields are compared by content on both sides and not only against nil, and every field hashed by a node's Hash() is also compared by its Equal() (else hash-bucketed duplicate removal mis-pairs rules). If a field is missed, two rules differing only in it are 'equal' and one is deleted or merged away. NOT covered: selector-safety reasoning in mangleRules, shorthand collapsing, colour/calc arithmetic, nesting expansion, import order, local-name renaming.",
 		Run: func(p *Prog, tier string) []*RuleResult {
-			return []*RuleResult{c12EqCoverage(p), c12HashSubset(p), c12NeverEqualRule(p)}
+			return []*RuleResult{c12EqCoverage(p), c12HashSubset(p), c12NeverEqualRule(p), c12DedupeAfterWrap(p)}
 		},
 	})
 }
@@ -266,5 +266,63 @@ func c12NeverEqualRule(p *Prog) *RuleResult {
 			r.OK(key, true, fmt.Sprintf("all %d returns are the constant false", rets))
 		}
 	}
+	return r
+}
+
+// C12/R4 cross-file dedupe sees conditioned rules.
+//
+// When CSS files are bundled, a file imported with conditions (`@import "x.css" print`,
+// `supports(...)`, `layer(...)`) contributes its rules wrapped in the corresponding at-rules
+// (wrapRulesWithConditions). The cross-file duplicate remover is shared by the whole chunk and
+// knows nothing about import conditions, so it may only compare rules *after* that wrapping:
+// an unconditional rule must never be dropped in favour of an identical rule that only applies
+// under a condition. Rule: in the linker, the rule list handed to DeadRuleRemover.
+// RemoveDeadRulesInPlace is computed from the result of wrapRulesWithConditions.
+func c12DedupeAfterWrap(p *Prog) *RuleResult {
+	r := NewRule("C12/R4 dedupe-after-conditions", "the cross-file duplicate remover of a CSS chunk is given a file's rules only after they were wrapped in the file's import conditions")
+	n := 0
+	for _, fn := range p.ModuleFuncs() {
+		if pkgPathOf(fn) != modPath+"/internal/linker" {
+			continue
+		}
+		k := 0
+		eachInstr(fn, func(b *ssa.BasicBlock, in ssa.Instruction) {
+			c, ok := in.(*ssa.Call)
+			if !ok || FuncNameOf(c) != "css_parser.(*DeadRuleRemover).RemoveDeadRulesInPlace" || len(c.Call.Args) < 3 {
+				return
+			}
+			n++
+			k++
+			r.Instances++
+			key := fmt.Sprintf("%s call #%d", FuncName(fn), k)
+			wrapped := false
+			backSlice(c.Call.Args[2], func(v ssa.Value) bool {
+				if cc, ok := v.(*ssa.Call); ok && FuncNameOf(cc) == "linker.wrapRulesWithConditions" {
+					// and it has been executed by then
+					if cc.Block() != b && cc.Block().Dominates(b) {
+						wrapped = true
+					}
+					if cc.Block() == b {
+						for _, bi := range b.Instrs {
+							if bi == ssa.Instruction(cc) {
+								wrapped = true
+								break
+							}
+							if bi == ssa.Instruction(c) {
+								break
+							}
+						}
+					}
+				}
+				return !wrapped
+			})
+			if wrapped {
+				r.OK(key, true, "the rule list is the result of wrapRulesWithConditions")
+			} else {
+				r.Fail(key, p.Pos(c.Pos()), "the cross-file duplicate remover is given a file's own rules before they are wrapped in the file's import conditions: an unconditional rule of an earlier file is then deleted in favour of an identical rule that only applies under a media/supports/layer condition")
+			}
+		})
+	}
+	r.Anchor("linker call of css_parser.(*DeadRuleRemover).RemoveDeadRulesInPlace", n > 0)
 	return r
 }
